@@ -220,6 +220,21 @@ Req makeReq(int kind, int k)
     r.close = true;
     r.name = "f" + id + "+close";
     break;
+  case 9:
+  case 10:
+  case 11:
+  case 12:
+  {
+    // connection options are case-insensitive tokens and field names are case-insensitive (RFC 9110 5.1, 7.6.1):
+    // every spelling asks for the connection to be closed after the response
+    static const char *spell[] = {"Connection: Close", "Connection: CLOSE", "connection: close", "CONNECTION: cLoSe"};
+    r.wire = "GET /f" + id + " HTTP/1.1\r\nHost: x\r\n" + spell[kind - 9] + "\r\n\r\n";
+    r.expectBody = "f" + id;
+    r.expectStatus = 200;
+    r.close = true;
+    r.name = "f" + id + "+" + spell[kind - 9];
+    break;
+  }
   }
   return r;
 }
@@ -258,7 +273,8 @@ void searchAssign(const std::string &s, const std::vector<Req> &reqs, size_t pos
   }
 }
 
-void run(int nreq, bool pipelined)
+// spellings: the LAST request of the sequence is a Connection: close request in one of four other spellings (kinds 9-12)
+void run(int nreq, bool pipelined, bool spellings = false)
 {
   mc_label("main:http");
   simk_cfg.tcpRcvBuf = 8192;
@@ -267,7 +283,7 @@ void run(int nreq, bool pipelined)
   std::string sigSeq;
   for (int i = 0; i < nreq; ++i)
   {
-    int kind = mc_choose(9, MC_FREE);
+    int kind = spellings && i == nreq - 1 ? 9 + mc_choose(4, MC_FREE) : mc_choose(9, MC_FREE);
     reqs.push_back(makeReq(kind, i + 1));
     sigSeq += (i ? "," : "") + reqs.back().name;
   }
@@ -565,6 +581,20 @@ int main(int argc, char **argv)
     m.thorough.total = s.tTotal;
     m.horizon_s = 120;
     m.weight = s.weight;
+    v.push_back(m);
+  }
+  for (int n = 1; n <= 2; ++n)
+  {
+    McScenario m;
+    m.name = n == 1 ? "close_spellings" : "close_spellings_after_request";
+    m.body = [n]() { run(n, n == 2, true); };
+    m.quick.P = 1;
+    m.quick.S = 1;
+    m.quick.T = 1;
+    m.quick.total = n == 1 ? 1 : 0;
+    m.thorough = m.quick;
+    m.thorough.total = 1;
+    m.horizon_s = 120;
     v.push_back(m);
   }
   {
